@@ -29,6 +29,15 @@ def handle : List String → Option String
     let [h] := rest | none
     let b ← fromHex h
     some (showOutcomeVals (unmarshal Gen.codecFacts T wireBounds L b))
+  | [d, h] =>
+    if d = "dispatch-req" ∨ d = "dispatch-resp" then do
+      let b ← fromHex h
+      let table := if d = "dispatch-req" then Gen.Messages.requests else Gen.Messages.responses
+      match dispatch Gen.codecFacts T wireBounds table (fun n => Gen.Messages.all.lookup n) b with
+      | .ok (n, vs) => some (s!"ok {n} " ++ showVals vs)
+      | .err => some "err"
+      | .panic => some "panic"
+    else none
   | "alias" :: r => do
     let (L, _) ← layoutOf r
     -- a decoded value changes with the buffer only if its reader stored a view of the input
